@@ -56,3 +56,16 @@ func (el *enumValueList) has(v Symbol) bool {
 	}
 	return false
 }
+
+// dup makes a copy of the list that does not share the dict and the slice
+// with the original.
+func (el *enumValueList) dup() enumValueList {
+	d := enumValueList{list: append([]*EnumValue{}, el.list...)}
+	if el.dict != nil {
+		d.dict = make(map[string]*EnumValue, len(el.dict))
+		for k, v := range el.dict {
+			d.dict[k] = v
+		}
+	}
+	return d
+}
